@@ -288,7 +288,7 @@ class VectorContainer:
         if isinstance(value, Sequence) and not isinstance(value, str):
             value_as_array = np.array(value, dtype=self.__dict__['_' + name].dtype)
 
-            if value_as_array.shape[0] != len(self.__dict__['span']):
+            if value_as_array.ndim != 1 or value_as_array.shape[0] != len(self.__dict__['span']):
                 raise DimensionError(
                     f"Invalid assignment for '{name}': "
                     f"must be either a single value or "
